@@ -21,7 +21,7 @@ def pregen(check):
 
 CFG = {
     "id": "C15",
-    "lean_modules": ["GeomV.C15.Proofs", "GeomV.C15.ProofsBlocks", "GeomV.C15.ProofsFloat", "GeomV.C15.ProofsPath", "GeomV.C15.Ties"],
+    "lean_modules": ["GeomV.C15.Proofs", "GeomV.C15.ProofsBlocks", "GeomV.C15.ProofsFloat", "GeomV.C15.ProofsPath", "GeomV.C15.ProofsNil", "GeomV.C15.ProofsFloatLift", "GeomV.C15.Ties"],
     "pregen": pregen,
     "exe": "geomv_c15",
     "go_cmd": "c15",
@@ -36,6 +36,8 @@ CFG = {
         "C15_tie_Point", "C15_tie_MultiPoint", "C15_tie_LineString", "C15_tie_Bounds",
         "C15_model_eq_spec_blocks", "C15_greedy_iff_perfect_blocks", "C15_false_displaced_copy", "C15_sepRel_block", "C15_perturb_blocks", "C15_false_blocks",
         "C15_blockRel_iff", "C15_any_fit_matcher", "C15_firstFit_is_code", "C15_false_displaced_member_blocks", "C15_false_displaced_anywhere",
+        "C15_nil_free_receiver_no_fault", "C15_nil_receiver_faults",
+        "C15_float_lift", "C15_float_lift_symm", "simC_similar", "simC_congr",
         "C15_float_false", "C15_float_true", "C15_float_exact", "C15_float_symm", "truncInt_rounding",
         # compiled forms used by the judge executable (@[csimp]): proved equal to the Spec definitions
         "Spec.near_eq_C", "Spec.ringNear_eq_C", "Spec.existsMatching_eq_C"]],
@@ -48,7 +50,7 @@ CFG = {
     ],
     "assumptions": [
         "Similar is a function of the values of its operands: it does not modify them and its answer does not depend on their memory layout or on earlier calls (checked on every case: SPEC operand-modified / answer-depends-on-earlier-calls / answer-depends-on-operand-layout)",
-        "no nil interface / nil *Bounds members (calling Similar on them panics; outside the eight types)",
+        "nil interface values are outside the eight types: what the code does with them (panic exactly when the loops reach a nil RECEIVER member, false for a nil argument) is modelled as faults (Model.simE, ProofsNil.lean) and compared on the 'nilm' lines, it is not part of the property; a typed nil *Bounds cannot be written in the line protocol and is neither modelled nor generated",
         "polygon rings are closed (last vertex duplicates the first): the closing vertex is skipped by the code by design and is not compared",
         "finite coordinates and tolerance (no NaN/Inf)",
     ],
@@ -56,8 +58,8 @@ CFG = {
             "rectangles = anchor ties, 10% near-ties): same, perturb(<tol), permute, rotate, combo, reverse line, reverse ring, displace one vertex "
             "(65/64..100 tol), insert/delete member, insert/delete vertex, change type, duplicate member (non-separated), unrelated geometry; "
             "both argument orders of every pair; 80% dyadic tolerances 2^-30..2^30, 20% decimal; plus a fixed corpus of edge cases; "
-            "rings that visit a vertex twice (pinched / figure-eight, second visit bit-identical or within tol/4) under ALL start-vertex pairs, alone and as "
-            "holes in polygons / multi-polygons / collections; vertex and member counts 64,128,129,1024,1025,2048; deletions/insertions at the END of a list. "
+            "rings that visit a vertex twice (pinched / figure-eight, second visit bit-identical or within tol/4) under all start-vertex pairs (a third of the pairs per "
+            "call, rotating: every pair ~100 times per quick run), alone and as holes in polygons / multi-polygons / collections (every ninth pair); vertex and member counts 64,128,129,1024,1025,2048; deletions/insertions at the END of a list. "
             "every 7th base has coordinates of magnitude 2^24..2^40 on a 2^-10 lattice with tol 2^-30/2^-20/1e-9 (a-b exact, a±tol not representable; zero perturbation); "
             "ring moved to / rings exchanged between sibling member polygons of a multi-polygon or collection (F). "
             "REPEATED members: every member-list kind (lines, rings, polygons of a multi-polygon, rings of one member polygon, collection of points, "
@@ -71,6 +73,8 @@ CFG = {
             "Every pair is evaluated by the harness under five operand layouts (plain; packed = consecutive windows of one flat buffer with spare capacity; "
             "shared = prefix lists are re-slices of the other operand's backing array / same slice on both sides; nil for empty; in-place overwrite of an "
             "already-compared operand), four calls per layout (AB, BA, AB, BA) with a bit-for-bit comparison of both operands after every call. "
+            "nil interface values (~340 'nilm' lines): nil operand, nil members of (nested) collections on either side, before/after matched and unmatched "
+            "members, with equal and different counts: answers AND panics compared with the fault model simE. "
             "distinct = distinct input line; non-trivial = every class",
     "timeout": {"quick": 600, "thorough": 3000},
 }
